@@ -25,6 +25,8 @@ type BoundedCheck struct {
 var boundedChecks = map[string][]BoundedCheck{
 	"C05": {{Prop: "C05", Name: "engine-vs-reachability", Pkg: "inference", File: "engine_reachability_test.go.txt", Run: "TestVerifEngineReachability",
 		Bound: "every set of <= 5 (quick) / <= 6 (thorough) constraints over 4 sites (sources, sinks, flows), every observation order, real Engine vs reference reachability"}},
+	"C07": {{Prop: "C07", Name: "shapes-no-internal-error", Pkg: ".", File: "shapes_no_internal_error_test.go.txt", Run: "TestVerifShapesNoInternalError",
+		Bound: "a fixed list of 32 assignment-target shapes, 5 call shapes of a contracted variadic function and 11 range operand kinds, run through the real analyzer: no INTERNAL diagnostic"}},
 	"C13": {{Prop: "C13", Name: "prettyprint-strip-roundtrip", Pkg: ".", File: "prettyprint_roundtrip_test.go.txt", Run: "TestVerifPrettyPrintRoundTrip",
 		Bound: "all token sequences of length <= 4 (quick) / 5 (thorough) over 11 token kinds (words, `code`, \"paths\", nilability phrases, tabs, newlines, nested quote/backtick mixes)"}},
 }
